@@ -23,8 +23,10 @@ TRUSTED_COMMON = [
 ]
 
 # what bin/setup pre-builds (every check rebuilds on demand anyway; the object cache makes that cheap)
-SETUP_HARNESSES = [("san", "run_kernel"), ("san", "run_leaf")]
-SETUP_DRIVERS = [("Extract/Extract.v", "kdriver.ml", "kdriver"), ("Extract/ExtractLeaf.v", "ldriver.ml", "ldriver")]
+SETUP_HARNESSES = [("san", "run_kernel"), ("san", "run_leaf"), ("san", "run_iter"), ("san", "run_lookup"), ("san", "run_registry"), ("san", "run_geo"), ("tsan", "run_conc")]
+SETUP_DRIVERS = [("Extract/Extract.v", "kdriver.ml", "kdriver"), ("Extract/ExtractLeaf.v", "ldriver.ml", "ldriver"),
+                 ("Extract/ExtractIter.v", "iterdriver.ml", "iterdriver"), ("Extract/ExtractLookup.v", "lookupdriver.ml", "lookupdriver"),
+                 ("Extract/ExtractReg.v", "regdriver.ml", "regdriver"), ("Extract/ExtractGeo.v", "geodriver.ml", "geodriver")]
 
 class Lock:
     def __init__(self, name="build"):
